@@ -67,9 +67,25 @@ Lemma vt_range_facts t : vt_is_integral t = true ->
   (vt_is_signed t = false -> vt_min t = 0).
 Proof. destruct t; cbn; intros H; try discriminate H; norm_pow; repeat split; intros; try lia; try discriminate. Qed.
 
+Lemma lint_max_64 t : lint_max 64 t = vt_max t.
+Proof. destruct t; reflexivity. Qed.
+
+(* the same facts for the range of the type on either target *)
+Lemma lint_max_range_facts ub t : ub = 32 \/ ub = 64 -> vt_is_integral t = true ->
+  vt_min t <= 0 /\ 0 < lint_max ub t /\ lint_max ub t < 2 ^ 128 /\ - 2 ^ 127 <= vt_min t /\
+  (vt_is_signed t = true -> vt_min t = - lint_max ub t - 1 /\ lint_max ub t <= 2 ^ 127 - 1) /\
+  (vt_is_signed t = false -> vt_min t = 0).
+Proof.
+  intros [-> | ->] H.
+  - destruct t; cbn in *; try discriminate H; norm_pow; repeat split; intros; try lia; try discriminate.
+  - rewrite lint_max_64. apply vt_range_facts; exact H.
+Qed.
+
 (* The only false positive left: a negated literal that was parsed as a
    bit-integer literal (0x.., 0b.., or a suffixed unsigned one) whose magnitude is
    exactly max t + 1, so that its negation is min t (e.g. `-0x80` as i8). *)
+Definition false_positive_on (ub : Z) (neg : bool) (tok : itok) (t : prim) : Prop :=
+  neg = true /\ exists v, fst (parse_primary tok) = LBit v /\ v = lint_max ub t + 1 /\ v <> 2 ^ 127.
 Definition false_positive (neg : bool) (tok : itok) (t : prim) : Prop :=
   neg = true /\ exists v, fst (parse_primary tok) = LBit v /\ v = vt_max t + 1 /\ v <> 2 ^ 127.
 
@@ -84,15 +100,17 @@ Proof.
     left. apply andb_true_iff in Ev. destruct Ev as [_ Ev]. apply Z.leb_le in Ev. auto.
 Qed.
 
-Theorem lint_characterisation : forall neg tok t,
+Theorem lint_on_characterisation : forall ub neg tok t,
+  ub = 32 \/ ub = 64 ->
   0 <= magnitude tok < 2 ^ 128 -> vt_is_integral t = true ->
   let l := fst (source_literal true neg tok) in
   admissible l t ->
-  (lint l t = true <-> ~ (vt_min t <= math_value neg tok <= vt_max t) \/ false_positive neg tok t).
+  (lint_on ub l t = true <-> ~ (vt_min t <= math_value neg tok <= lint_max ub t) \/ false_positive_on ub neg tok t).
 Proof.
-  intros neg tok t Hm Ht l Hadm. subst l.
-  destruct (vt_range_facts t Ht) as (A & B & Cc & D & E & F).
-  unfold source_literal, math_value, false_positive in *.
+  intros ub neg tok t Hub Hm Ht l Hadm. subst l.
+  destruct (lint_max_range_facts ub t Hub Ht) as (A & B & Cc & D & E & F).
+  set (mx := lint_max ub t) in *.
+  unfold source_literal, math_value, false_positive_on in *. fold mx.
   norm_pow.
   pose proof (parse_primary_cases tok) as Hp.
   destruct (parse_primary tok) as [l0 s] eqn:Ep. cbn [fst] in *.
@@ -101,17 +119,17 @@ Proof.
   - destruct Hp as [[-> Hle] | ->]; cbn [fold_minus] in *.
     + (* signed literal: folded when positive *)
       destruct (Z.ltb_spec 0 m).
-      * cbn [lint]. destruct (Z.ltb_spec (- m) 0); [|lia]. rewrite Z.ltb_lt. split.
+      * cbn [lint_on]; fold mx. destruct (Z.ltb_spec (- m) 0); [|lia]. rewrite Z.ltb_lt. split.
         -- intros Hq. left. lia.
         -- intros [Hq | [_ [v [Hv _]]]]; [lia | discriminate Hv].
-      * cbn [lint]. assert (m = 0) by lia.
+      * cbn [lint_on]; fold mx. assert (m = 0) by lia.
         destruct (Z.ltb_spec m 0); [lia|]. rewrite Z.ltb_lt. split.
         -- intros Hq. lia.
         -- intros [Hq | [_ [v [Hv _]]]]; [lia | discriminate Hv].
     + cbn [andb] in *. unfold i128_max in *. norm_pow.
       destruct (Z.eqb_spec m (170141183460469231731687303715884105728 - 1 + 1)) as [Em|Em].
       * (* magnitude 2^127: folded into i128::MIN *)
-        cbn [lint]. unfold i128_min. norm_pow.
+        cbn [lint_on]; fold mx. unfold i128_min. norm_pow.
         change (- (170141183460469231731687303715884105728) <? 0) with true. cbv iota. rewrite Z.ltb_lt. split.
         -- intros Hq. left. lia.
         -- intros [Hq | [_ [v [Hv [_ Hne]]]]].
@@ -121,12 +139,12 @@ Proof.
            ++ injection Hv as <-. lia.
       * (* unfolded negation of a bit-integer literal: needs a signed type *)
         cbn [admissible] in Hadm. destruct (E Hadm) as [E1 E2].
-        cbn [lint]. rewrite Z.ltb_lt. split.
-        -- intros Hq. destruct (Z.eq_dec m (vt_max t + 1)) as [Eq|Ne].
+        cbn [lint_on]; fold mx. rewrite Z.ltb_lt. split.
+        -- intros Hq. destruct (Z.eq_dec m (mx + 1)) as [Eq|Ne].
            ++ right. split; [reflexivity|]. exists m. split; [reflexivity|]. split; [assumption|]. lia.
            ++ left. lia.
         -- intros [Hq | [_ [v [Hv [Hv2 _]]]]]; [lia|]. injection Hv as <-. lia.
-  - destruct Hp as [[-> Hle] | ->]; cbn [lint].
+  - destruct Hp as [[-> Hle] | ->]; cbn [lint_on]; fold mx.
     + destruct (Z.ltb_spec m 0); [lia|]. rewrite Z.ltb_lt. split.
       * intros Hq. left. lia.
       * intros [Hq | [Hn _]]; [lia | discriminate Hn].
@@ -134,6 +152,45 @@ Proof.
       * intros Hq. left. lia.
       * intros [Hq | [Hn _]]; [lia | discriminate Hn].
 Qed.
+
+(* the host target (64-bit usize): the statement as it stood before the target became a parameter *)
+Theorem lint_characterisation : forall neg tok t,
+  0 <= magnitude tok < 2 ^ 128 -> vt_is_integral t = true ->
+  let l := fst (source_literal true neg tok) in
+  admissible l t ->
+  (lint l t = true <-> ~ (vt_min t <= math_value neg tok <= vt_max t) \/ false_positive neg tok t).
+Proof.
+  intros neg tok t Hm Ht l Hadm.
+  pose proof (lint_on_characterisation 64 neg tok t (or_intror eq_refl) Hm Ht Hadm) as H.
+  unfold false_positive_on in H. rewrite lint_max_64 in H. exact H.
+Qed.
+
+(* Corollary on either target: a literal that raises no lint lies in the range its type has on that
+   target - in particular a usize literal compiled for WebAssembly fits 32 bits. *)
+Corollary no_lint_in_range_on : forall ub neg tok t,
+  ub = 32 \/ ub = 64 ->
+  0 <= magnitude tok < 2 ^ 128 -> vt_is_integral t = true ->
+  admissible (fst (source_literal true neg tok)) t ->
+  lint_on ub (fst (source_literal true neg tok)) t = false ->
+  vt_min t <= math_value neg tok <= lint_max ub t.
+Proof.
+  intros ub neg tok t Hub Hm Ht Hadm Hl.
+  pose proof (lint_on_characterisation ub neg tok t Hub Hm Ht Hadm) as [_ H].
+  destruct (Z_le_dec (vt_min t) (math_value neg tok)); destruct (Z_le_dec (math_value neg tok) (lint_max ub t)); try lia;
+    (rewrite H in Hl; [discriminate | left; lia]).
+Qed.
+
+Lemma lint_max_is_target_range ub t : ub = 32 \/ ub = 64 -> vt_is_integral t = true -> vt_is_signed t = false ->
+  lint_max ub t = 2 ^ vt_bits ub t - 1.
+Proof. intros [-> | ->] H S; destruct t; cbn in *; try discriminate; reflexivity. Qed.
+
+(* D54 (repaired): the 64-bit range applied on the 32-bit target let `4294967296` through as a usize *)
+Lemma lint_wasm_usize_pinned_refuted :
+  lint_on 64 (fst (source_literal true false (TNaked (2 ^ 32)))) Usize = false /\
+  ~ (math_value false (TNaked (2 ^ 32)) <= 2 ^ vt_bits 32 Usize - 1) /\
+  lint_on 32 (fst (source_literal true false (TNaked (2 ^ 32)))) Usize = true.
+Proof. vm_compute. split; [reflexivity | split; [intros H; apply H; reflexivity | reflexivity]]. Qed.
+
 
 (* Corollary: a literal that raises no lint has exactly its mathematical value
    (never silently altered), on both targets for types other than usize, and for
